@@ -89,6 +89,9 @@ type FuncCtx struct {
 	pendingQueries []pendingQ
 	spec           *specCtx
 	clauseErr      string
+	axiomsDone     map[string]bool
+	locked         bool
+	relock         func(env *Env)
 	specDepth      int
 	cerrs          []string
 }
